@@ -49,6 +49,9 @@ type c19Site struct {
 type c19Expect struct {
 	Pattern string `json:"pattern"`
 	Note    string `json:"note"`
+	// Optional: the site belongs to a change of /repo that is still in flight (uncommitted
+	// work of another property's fix); its absence is not a broken tie.
+	Optional bool `json:"optional,omitempty"`
 }
 
 // the model patterns (lean/FV/Model/Determinism.lean `Pattern`)
@@ -612,7 +615,7 @@ func c19Merge(sites []c19Site, exp map[string]c19Expect) []c19Row {
 	}
 	sort.Strings(keys)
 	for _, k := range keys {
-		if !seen[k] {
+		if !seen[k] && !exp[k].Optional {
 			kind := "?"
 			if i := strings.Index(k, "::"); i >= 0 {
 				rest := k[i+2:]
